@@ -7,7 +7,7 @@ import glob, json, os, shutil, subprocess, sys, tempfile
 VERIF = os.path.dirname(os.path.dirname(os.path.abspath(__file__)))
 sys.path.insert(0, VERIF)
 from riolib.thorough import apply_variant
-PROPS = [c["property_id"] for c in json.load(open(os.path.join(VERIF, "MANIFEST.json")))["checks"]]
+PROPS = [c["property_id"] for c in json.load(open(os.path.join(VERIF, "MANIFEST.json")))["checks"]] + [p for p in ("C14", "C15") if os.path.exists(os.path.join(VERIF, "rules", p.lower() + ".py")) and p not in [c["property_id"] for c in json.load(open(os.path.join(VERIF, "MANIFEST.json")))["checks"]]]
 
 
 def main():
